@@ -23,7 +23,7 @@ func Edit(w *World, t *tape.Tape, prof Profile) string {
 		}
 		switch k {
 		case 0: // add a call
-			if t.Chance(1, 3) {
+			if t.Chance(1, 2) {
 				// ... onto the source line of an existing call
 				var hosts []*Call
 				for _, h := range w.Calls {
@@ -37,7 +37,7 @@ func Edit(w *World, t *tape.Tape, prof Profile) string {
 					h = hosts[t.Intn(len(hosts))]
 					// preferably a call of the host's own plugin on another type: the two functions are
 					// neighbours in the generated file, so their relative order is observable
-					if t.Bool() {
+					if t.Intn(3) > 0 {
 						if sc := g.simple(h.Plugin, g.anyTy()); sc != nil && sc.NRes == 1 {
 							c = g.finish(sc, "")
 						}
